@@ -53,6 +53,20 @@ def rule_used_set(ctx, M, fn, pr, turn_f, river_f):
             continue
         c = classify_card(M, fn, pr, pr.operand(t["args"][1]), turn_f, river_f)
         (Iset if name == "insert" else Q).setdefault(c, []).append(bi)
+        if name == "insert" and not t["dest"]["proj"]:
+            # `if !used.insert(card) { blocked }`: an insert whose bool result is consumed is also the test
+            dl = t["dest"]["l"]
+            used = False
+            for b2 in fn.cfg.reachable:
+                blk2 = fn.blocks[b2]
+                for s2 in blk2["stmts"]:
+                    if s2["k"] == "assign" and f"'l': {dl}," in str(s2["rv"]):
+                        used = True
+                t2 = blk2["term"]
+                if t2["k"] == "switch" and f"'l': {dl}," in str(t2["on"]):
+                    used = True
+            if used:
+                Q.setdefault(c, []).append(bi)
     if not Q and not Iset:
         raise U(rule, "the used-card set is neither queried nor filled in the deal function", fn)
     ok = True
